@@ -58,9 +58,17 @@ class FakeFS:
                 self.files[name] = ["", 0o644]
             self.log.append(("open-w", name))
             return _WFile(self, name, old)
+        if mode not in ("r", "rt", "rb"):
+            raise ValueError(f"FakeFS: unsupported open mode {mode!r}")
         if name not in self.files:
             raise FileNotFoundError(name)
-        return _RFile(self.files[name][0])
+        if not (self.files[name][1] & 0o400):
+            raise PermissionError(name)
+        raw = self.files[name][0]
+        if mode == "rb":
+            return _RFile(raw.encode("utf-8"))  # type: ignore
+        # text mode: universal newlines unless newline='' (or an explicit terminator) is requested, as io.open documents
+        return _RFile(raw if _kw.get("newline") is not None else raw.replace("\r\n", "\n").replace("\r", "\n"))
 
 
 class _WFile:
@@ -144,6 +152,27 @@ class FakePath:
     def with_suffix(self, suffix: str) -> "FakePath":
         base = self.name_[: len(self.name_) - len(self.suffix)] if self.suffix else self.name_
         return FakePath(self.fs, base + suffix)
+
+    def read_text(self, encoding: typing.Optional[str] = None, errors: typing.Optional[str] = None, newline: typing.Optional[str] = None) -> str:
+        """pathlib.Path.read_text: text mode, universal newlines (CRLF and CR become LF) unless a newline argument is given"""
+        with self.fs.open(self.name, "r", encoding, newline=newline) as f:
+            return f.read()
+
+    def read_bytes(self) -> bytes:
+        with self.fs.open(self.name, "rb") as f:
+            return f.read()
+
+    def write_text(self, data: str, encoding: typing.Optional[str] = None, errors: typing.Optional[str] = None, newline: typing.Optional[str] = None) -> int:
+        with self.fs.open(self.name, "w", encoding) as f:
+            f.write(data)
+        return len(data)
+
+    def open(self, mode: str = "r", buffering: int = -1, encoding: typing.Optional[str] = None, errors: typing.Optional[str] = None,
+             newline: typing.Optional[str] = None) -> typing.Any:
+        return self.fs.open(self.name, mode, encoding, newline=newline)
+
+    def is_file(self) -> bool:
+        return self.exists()
 
     def exists(self) -> bool:
         return self.name_ in self.fs.files
